@@ -172,7 +172,25 @@ def wrap(v, container):
     if container == "series":
         import polars as pl
         return pl.Series(values=list(v))
+    if container == "boolarray":
+        return np.asarray([bool(x) for x in v], dtype=bool)
+    if container == "uint8array":
+        return np.asarray(v, dtype=np.uint8)
     raise ValueError(container)
+
+
+def run_impl_dtypes(y, w, inc, functional, level, ykind, wkind):
+    """like run_impl but with separate containers / dtypes for y and the weights (dtype probes of the search)"""
+    from model_diagnostics._utils.isotonic import isotonic_regression
+    try:
+        x, r = isotonic_regression(wrap(y, ykind), None if w is None else wrap(w, wkind), increasing=inc, functional=functional, level=level)
+    except ValueError:
+        return ("ValueError",)
+    except NotImplementedError:
+        return ("NotImplementedError",)
+    except Exception as e:  # noqa: BLE001
+        return ("Other", type(e).__name__)
+    return ("ok", [float(v) for v in x], [int(k) for k in r])
 
 
 def coq_case(y, w, inc, functional, level_q, exact, obs):
